@@ -123,12 +123,25 @@ func runWorldW(rc *RunCtx, prop, driver string) *RunResult {
 
 	// ---- swarm configuration
 	w.maxOps = uint(T.Range(1, 5, "cfg.maxOps"))
+	big := T.Draw(8, "cfg.big") == 0 // occasionally: large batches, many operations
+	if big {
+		w.maxOps = uint(6 + T.Draw(10, "cfg.maxOps.big"))
+	}
+
 	nVersions := 1 + T.Draw(3, "cfg.versions")
 	genesisZero := T.Draw(2, "cfg.genesis0") == 0
 	nClients := 1 + T.Draw(4, "cfg.clients")
 	nDIDs := 1 + T.Draw(5, "cfg.dids")
 	nOps := T.Range(2, 18, "cfg.ops")
+	if big {
+		nDIDs = 6 + T.Draw(10, "cfg.dids.big")
+		nOps = 20 + T.Draw(30, "cfg.ops.big")
+	}
+
 	maxSteps := 60 + T.Draw(400, "cfg.steps")
+	if big {
+		maxSteps += 600
+	}
 
 	rates := []int{0, 0, 60, 150, 300}
 	w.rateCAS = rates[T.Draw(len(rates), "cfg.rate.cas")]
@@ -328,10 +341,10 @@ func (w *wWorld) buildOps(nDIDs, nOps, nClients int) {
 		var d *did
 
 		if len(dids) < nDIDs && (len(dids) == 0 || T.Draw(3, "op.newdid") == 0) {
-			d = &did{upd: kg.New(workload.Ed25519, false), rec: kg.New(workload.Ed25519, false)}
+			d = &did{upd: kg.New(workload.Ed25519, mark%4 == 0), rec: kg.New(workload.Ed25519, mark%5 == 0)}
 			spec.Type = operation.TypeCreate
 			spec.NextUpdate, spec.NextRecovery = d.upd, d.rec
-			spec.AnchorOrigin = fmt.Sprintf("origin-%d", mark)
+			spec.AnchorOrigin = originValue(mark)
 			spec.Patches, _ = workload.ToPatches([]workload.PatchDesc{{Kind: workload.AddKey, IDs: []string{"k1"}, Mark: fmt.Sprintf("m%d", mark)}})
 			dids = append(dids, d)
 		} else {
@@ -351,7 +364,7 @@ func (w *wWorld) buildOps(nDIDs, nOps, nClients int) {
 				spec.NextUpdate = kg.New(workload.Ed25519, false)
 				spec.NextRecovery = kg.New(workload.Ed25519, false)
 				d.upd, d.rec = spec.NextUpdate, spec.NextRecovery
-				spec.AnchorOrigin = fmt.Sprintf("origin-%d", mark)
+				spec.AnchorOrigin = originValue(mark)
 				spec.Patches, _ = workload.ToPatches([]workload.PatchDesc{{Kind: workload.AddKey, IDs: []string{"k2"}, Mark: fmt.Sprintf("m%d", mark)}})
 			default:
 				spec.Type = operation.TypeDeactivate
@@ -418,6 +431,18 @@ func (w *wWorld) clientTask(i int) {
 	}
 
 	w.done[i] = true
+}
+
+// originValue: anchor origins are mostly strings, sometimes objects or arrays (any JSON value is allowed).
+func originValue(n int) interface{} {
+	switch n % 4 {
+	case 1:
+		return map[string]interface{}{"domain": fmt.Sprintf("origin-%d", n), "tags": []interface{}{"a", "b"}}
+	case 2:
+		return []interface{}{fmt.Sprintf("origin-%d", n), "second"}
+	default:
+		return fmt.Sprintf("origin-%d", n)
+	}
 }
 
 func short8(s string) string {
